@@ -15,7 +15,12 @@ import (
 	"github.com/simonvetter/modbus"
 )
 
-var cliBin = "/verif/.work/modbus-cli"
+var cliBin = func() string {
+	if d := os.Getenv("VERIF_WORK_DIR"); d != "" {
+		return d + "/modbus-cli"
+	}
+	return "/verif/.work/modbus-cli"
+}()
 
 func buildCLI() error {
 	cmd := exec.Command("go", "build", "-o", cliBin, "./cmd/modbus-cli.go")
